@@ -1432,8 +1432,10 @@ def equiv_rt(l, o, path, out):
         if l is not None:
             bad("none", f"None came back as {type(l).__name__}")
         return
-    if isinstance(o, (np.integer, np.floating, np.bool_)):
-        if not _is_num(l) or not (l == o or (l != l and o != o)):
+    if isinstance(o, (np.integer, np.floating, np.bool_, np.complexfloating)):
+        # NumPy scalars are compared by numeric value (python number, numpy scalar or 0-d array)
+        lv = l.item() if isinstance(l, np.ndarray) and l.ndim == 0 else l
+        if not (_is_num(lv) or isinstance(lv, (complex, np.complexfloating))) or not (lv == o or (lv != lv and o != o)):
             bad("numpy-scalar numeric value", f"{o!r} came back as {l!r}")
         return
     if isinstance(o, (bool, int, float, str)):
@@ -2010,7 +2012,9 @@ def run_grammar_bounded(tier, seed):
             tasks.append((tuple(b), cfg, False))
     # every configuration (both stores x None/0/4/9 x str/Path x w/o) on a mixed batch
     mixed = ("int", "path", "npfloat", "ndarray2", "ndarray:int16:2x0", "tensor_grad", "list(int,str)", "tuple(int,int)", "dict(p=ndarray1,q=list(int))", "obj")
-    for cfg in CONFIGS_ALL:
+    sweep = CONFIGS_ALL if tier != "quick" else [dict(store=st, compression=c, pathtype=("str", "Path")[(i + j) % 2], mode=("w", "o")[(i + j // 2) % 2])
+                                                  for i, st in enumerate(("zip", "dir")) for j, c in enumerate((None, 0, 4, 9))]
+    for cfg in sweep:
         tasks.append((mixed, cfg, False))
     # fixed point: save(load(save(x))) reloads to the same graph
     for b in batches[:: (4 if tier == "quick" else 1)]:
@@ -2045,7 +2049,7 @@ def rt_values_replay(inp):
 
 B_GRAMMAR = Bounded("round trip over the value grammar (real save/load)", run_grammar_bounded,
                     "all kinds at depth 0; containers of width <=3 at depth <=2 over 9 child classes; containers of 11-13 elements; every numpy dtype x 0-d/empty/non-empty shapes; "
-                    "both stores x compression None/0/4/9 x str/Path x w/o on a mixed batch (quick: 4 configurations elsewhere); fixed point on a third of the batches")
+                    "both stores x compression None/0/4/9 (x str/Path x w/o: full product in thorough, alternating in quick) on a mixed batch, 4 configurations rotating over the other batches; fixed point on every 4th batch (thorough: all)")
 B_GRAMMAR.rt = rt_values_replay
 B_SKIP = Bounded("skip lists over a 3-level fixture (real save/load)", run_skip_bounded,
                  "all subsets of <=2 (thorough: <=4) of 7 names (one absent) at save / load / split / both, both stores; 6 type lists; load-time vs save-time comparison")
@@ -2259,7 +2263,10 @@ def conc_load(ev):
                 save_skipform=pk("save_skipform", skip_forms()), load_skipform=pk("load_skipform", skip_forms()))
 
 
+INLINED = [f"{AS}.{q}" for q in ("_serialize_value", "_get_group", "_get_array", "_is_autoserialize_instance", "_fix_torch_module_sets",
+                                  "_convert_string_to_path_if_needed")]
 for _c in CONTRACTS:
+    _c.inline = set(INLINED)  # listed in evidence: these bodies are interpreted at their call sites
     _c.canary_path_limit = 16  # vacuity canary: the first 16 paths (of up to several hundred) are re-run with falsified postconditions
 
 for _i, _c in enumerate(C_SAVES):
